@@ -176,14 +176,20 @@ pub fn check_outcome(w: &mut World, i: usize, o: &Outcome) {
         return;
     };
     if kind.creates_fd() {
-        let want_direct = matches!(kind, Kind_::SocketDirect | Kind_::OpenDirect | Kind_::OpenDirectExtract | Kind_::PipeDirect | Kind_::ToDirect);
+        let want_direct = matches!(kind, Kind_::SocketDirect | Kind_::OpenDirect | Kind_::OpenDirectExtract | Kind_::PipeDirect | Kind_::ToDirect | Kind_::AcceptDirect | Kind_::MultishotAcceptDirect);
         let nums: Vec<i64> = o.afds.iter().map(crate::ops::raw_of).collect();
         let exp: Vec<i64> = fds.iter().map(|f| i64::from(f.0)).collect();
         if nums != exp {
             w.violation("C02", "wrong-result:descriptor", format!("op #{id} ({kind:?}): kernel created descriptors {exp:?}, op returned {nums:?}"));
         }
-        for a in &o.afds {
+        for (n, a) in o.afds.iter().enumerate() {
             let is_direct = a.kind() == a10::fd::Kind::Direct;
+            // What the caller asked for, and what the kernel really created.
+            if let Some(f) = fds.get(n) {
+                if f.1 != want_direct {
+                    w.violation("C07", "descriptor-created-as-wrong-kind", format!("op #{id} ({kind:?}) asked the kernel for a {} descriptor, the caller asked for a {} one", if f.1 { "direct" } else { "regular" }, if want_direct { "direct" } else { "regular" }));
+                }
+            }
             if is_direct != want_direct {
                 w.violation("C07", "descriptor-wrong-kind", format!("op #{id} ({kind:?}) returned a descriptor of kind {:?}", a.kind()));
             }
@@ -494,6 +500,10 @@ pub fn run_history(cfg: &GenCfg, seed: u64, index: u64, rep: &mut Report) {
         // --- drop results handed out earlier
         if !w.kept_rbufs.is_empty() && rng.chance(1, 2) {
             let n = rng.below(w.kept_rbufs.len() as u64) as usize;
+            if rng.chance(1, 2) {
+                w.edit_rbuf(n, &mut rng);
+                rep.cell("rbuf:edited-before-release");
+            }
             w.drop_rbuf(n);
             w.ev("dropbuf".into());
         } else if !w.kept_afds.is_empty() {
